@@ -17,6 +17,7 @@ import (
 	"net/url"
 	"sort"
 	"strings"
+	"sync"
 	"time"
 
 	"bytes"
@@ -68,6 +69,7 @@ type HReq struct {
 	Gen   string `json:"gen,omitempty"` // instead of body: "bigzipkin:<spans>:<pad bytes>:<first id>:<tag>" (synthesised, > 1 MiB)
 	Query string `json:"query,omitempty"`
 	Items []Item `json:"items"` // what the parser emits for this body (learnt by a dry run)
+	Ts    string `json:"ts,omitempty"` // timestamp classes of the body (stamp): usual / pre1970 / epoch / far-future, one letter per stream
 }
 type Op2 struct {
 	T  string `json:"t"` // http plan send ret
@@ -780,6 +782,41 @@ func runScript2(c *Case2) {
 
 // ---------------------------------------------------------------------------------------------- generation
 
+// stamp draws the time (seconds since 1970) the entries of one stream / span / series of a generated body are dated with: mostly a
+// usual one, one time in four an unusual one -- BEFORE 1970 (a device with an unset clock; a negative timestamp, accepted by the Loki
+// JSON push, remote write and Zipkin), the epoch itself, or far in the future (2100; 2150 = beyond the last day ClickHouse's Date
+// holds; 2255 = close to the largest int64 nanosecond).  Added after the seeded change C02-e, which only misbehaved for a series row
+// dated before 1970: every generated timestamp used to be in November 2023.  The classes drawn are recorded per body (HReq.Ts).
+var stampMu sync.Mutex
+var stampLog []byte
+
+func stamp(r *rand.Rand) int64 {
+	sec, cl := int64(1700000000), byte('u')
+	if r.Intn(4) == 0 {
+		switch r.Intn(6) {
+		case 0, 1:
+			sec, cl = -int64(1+r.Intn(3000))*86400+int64(r.Intn(86400)), 'p' // 1961 .. 1969
+		case 2:
+			sec, cl = -int64(1+r.Intn(86400)), 'p' // 1969-12-31
+		case 3:
+			sec, cl = 0, 'e'
+		default:
+			sec, cl = []int64{4102444800, 5700000000, 9000000000}[r.Intn(3)], 'f'
+		}
+	}
+	stampMu.Lock()
+	stampLog = append(stampLog, cl)
+	stampMu.Unlock()
+	return sec
+}
+func takeStamps() string {
+	stampMu.Lock()
+	defer stampMu.Unlock()
+	s := string(stampLog)
+	stampLog = nil
+	return s
+}
+
 func lokiBody(r *rand.Rand, tag string, uniq *int64) (string, int) {
 	ns := 1 + r.Intn(2)
 	var streams []string
@@ -787,9 +824,10 @@ func lokiBody(r *rand.Rand, tag string, uniq *int64) (string, int) {
 	for s := 0; s < ns; s++ {
 		nv := 1 + r.Intn(4)
 		var vals []string
+		base := stamp(r) * 1000000000
 		for v := 0; v < nv; v++ {
 			*uniq++
-			vals = append(vals, fmt.Sprintf(`["%d","line %s %d"]`, 1700000000000000000+*uniq, tag, *uniq))
+			vals = append(vals, fmt.Sprintf(`["%d","line %s %d"]`, base+*uniq, tag, *uniq))
 			rows++
 		}
 		streams = append(streams, fmt.Sprintf(`{"stream":{"job":"%s","s":"%d"},"values":[%s]}`, tag, s, strings.Join(vals, ",")))
@@ -822,7 +860,7 @@ func zipkinBody(r *rand.Rand, tag string, uniq *int64) (string, int) {
 	for i := 0; i < n; i++ {
 		*uniq++
 		spans = append(spans, fmt.Sprintf(`{"traceId":"%032x","id":"%016x","name":"op-%s","timestamp":%d,"duration":%d,"localEndpoint":{"serviceName":"svc-%s"},"tags":{"k%d":"v%d"}}`,
-			*uniq, *uniq, tag, 1700000000000000+*uniq, 10+*uniq%7, tag, *uniq%3, *uniq))
+			*uniq, *uniq, tag, stamp(r)*1000000+*uniq, 10+*uniq%7, tag, *uniq%3, *uniq))
 	}
 	return "[" + strings.Join(spans, ",") + "]", n
 }
@@ -832,10 +870,11 @@ func lokiProtoBody(r *rand.Rand, tag string, uniq *int64) ([]byte, int) {
 	rows := 0
 	for s := 0; s < 1+r.Intn(2); s++ {
 		st := &logproto.StreamAdapter{Labels: fmt.Sprintf(`{job="%s", s="%d"}`, tag, s)}
+		sec := stamp(r)
 		for v := 0; v < 1+r.Intn(3); v++ {
 			*uniq++
 			st.Entries = append(st.Entries, &logproto.EntryAdapter{
-				Timestamp: &logproto.Timestamp{Seconds: 1700000000, Nanos: int32(*uniq % 1000000000)},
+				Timestamp: &logproto.Timestamp{Seconds: sec, Nanos: int32(*uniq % 1000000000)},
 				Line:      fmt.Sprintf("pline %s %d", tag, *uniq)})
 			rows++
 		}
@@ -850,9 +889,10 @@ func promBody(r *rand.Rand, tag string, uniq *int64) ([]byte, int) {
 	rows := 0
 	for s := 0; s < 1+r.Intn(2); s++ {
 		ts := &prompb.TimeSeries{Labels: []*prompb.Label{{Name: "__name__", Value: "m_" + tag}, {Name: "s", Value: fmt.Sprint(s)}}}
+		ms := stamp(r) * 1000
 		for v := 0; v < 1+r.Intn(3); v++ {
 			*uniq++
-			ts.Samples = append(ts.Samples, &prompb.Sample{Value: float64(*uniq), Timestamp: 1700000000000 + *uniq})
+			ts.Samples = append(ts.Samples, &prompb.Sample{Value: float64(*uniq), Timestamp: ms + *uniq})
 			rows++
 		}
 		req.Timeseries = append(req.Timeseries, ts)
@@ -873,8 +913,9 @@ func otlpBody(r *rand.Rand, tag string, uniq *int64) ([]byte, int) {
 		sid := make([]byte, 8)
 		binary.BigEndian.PutUint64(tid[8:], uint64(*uniq))
 		binary.BigEndian.PutUint64(sid, uint64(*uniq))
+		ns := stamp(r) * 1000000000 // a time before 1970 becomes a uint64 above the int64 range
 		spans = append(spans, &trace.Span{TraceId: tid, SpanId: sid, Name: "op-" + tag,
-			StartTimeUnixNano: uint64(1700000000000000000 + *uniq), EndTimeUnixNano: uint64(1700000000000000500 + *uniq),
+			StartTimeUnixNano: uint64(ns + *uniq), EndTimeUnixNano: uint64(ns + 500 + *uniq),
 			Attributes: []*v11.KeyValue{str("k", fmt.Sprint(*uniq))}})
 	}
 	td := &trace.TracesData{ResourceSpans: []*trace.ResourceSpans{{
@@ -899,7 +940,7 @@ func profileBody(r *rand.Rand, tag string, uniq *int64) ([]byte, string, int) {
 	}
 	var buf bytes.Buffer
 	p.Write(&buf)
-	from := 1700000000 + *uniq
+	from := stamp(r) + *uniq
 	q := url.Values{"from": {fmt.Sprint(from)}, "until": {fmt.Sprint(from + 10)}, "name": {"app_" + tag + "{c=" + tag + "}"}}
 	return buf.Bytes(), q.Encode(), 1
 }
@@ -983,6 +1024,7 @@ func (g *gen) runGenerated2(c *Case2, uniq *int64) {
 		default:
 			hr = HReq{Route: []string{"loki", "zipkin"}[r.Intn(2)], Body: hex.EncodeToString([]byte(`{"streams":[{"stream":{"a":`))}
 		}
+		hr.Ts = takeStamps()
 		hr.Items = rn.b.dryParse(&hr)
 		rn.b.learn(h, hr.Items)
 		c.Reqs = append(c.Reqs, hr)
